@@ -98,6 +98,10 @@ class Generator:
 
     def fresh_name(self):
         self.n_fresh += 1
+        if self.rng.random() < self.p.get("p_odd_names", 0.0):
+            # column names that are not Python identifiers (legal in frames and in SQL)
+            self.m.note("non_identifier_column_name")
+            return self.rng.choice(["m {}", "{}m", "m-{}", "m.{}", "m\u00fc{}"]).format(self.n_fresh)
         return f"m{self.n_fresh}"
 
     def new_k(self):
@@ -1246,6 +1250,9 @@ class Generator:
             w = {"v": "win", "f": rng.choice(["shift", "rown"]), "a": rng.choice(ints), "ar": rng.random() < 0.25}
             if rng.random() < 0.3:
                 w["pb"] = [rng.choice(names)]
+            if w["f"] == "shift":
+                w["wrap"] = rng.choice([None, None, "abs", "neg", "hmax", "hmin", "floor", "exp"])
+                w["fill"] = rng.random() < 0.5
             chain.append(w)
             names = names + ["w__"]
             ints = ints + ["w__"]
@@ -1434,6 +1441,20 @@ class Generator:
                 m.note("join_conjunction")
             if not on:
                 return None
+            if rng.random() < self.p.get("p_onesided_on", 0.2):
+                # a conjunct that reads one side only (t.a == s.b, s.c >= 5): it restricts the
+                # partners, it does not filter the rows of an outer join
+                side = rng.choice(["l", "r", "r"])
+                pt_ = l if side == "l" else r
+                ints = self.addressable(pt_, kinds=("int",), decodable=True)
+                if ints:
+                    t_ = rng.choice(ints)
+                    a = side_ref(pt_, t_, side)
+                    thr = self.threshold(pt_, t_)
+                    if a is not None and thr is not None:
+                        op = "==" if how == "full" else rng.choice([">=", "<", "==", "!="])
+                        on.append({"p": "cmp", "op": op, "a": a, "thr": thr})
+                        m.note("join_onesided_predicate:" + how)
         suffix = None
         if rng.random() < self.p.get("p_user_suffix", 0.15):
             suffix = rng.choice(["_s", "_r", "_B"])
